@@ -177,13 +177,16 @@ CLAIMS = {
         note=GEOM_NOTE),
     "C15": dict(
         engine="geom", design_ref="DESIGN.md section 4 C15",
-        technique="Coq proofs over the reals (truncated remainder, uniqueness modulo 1) + bit-exact model/impl comparison incl. bound-clamped sites",
+        technique="Coq proofs over the reals (truncated remainder, uniqueness modulo 1) and in binary64 through Flocq (rounding to integer at 2^52, Sterbenz, monotone rounding) + bit-exact model/impl comparison incl. bound-clamped sites",
         text="Theorems (reals): wrap(x) is in [-1/2,1/2), differs from x by an integer and is the unique such number, so "
              "coordinates that differ by integers wrap identically; positions() has one placement per operation, placement k "
              "= (L_k R, wrap(L_k p + t_k)); a site moved by lattice vectors, or rotated by 2 pi, gives identical placements.  The "
-             "binary64 wrap is exercised bit-for-bit on the edge set (x,y = +-1/2, +-(1/2 - 2^-54), denormals, -0.0).",
-        note=GEOM_NOTE + "  The half-open bound for binary64 rounding itself (wrap of values within an ulp of 1/2) is checked by "
-             "the monitor on every generated case, not proved."),
+             "Theorem (binary64, C15_F_wrap_in_cell): for EVERY finite coordinate of magnitude up to 2^51 the wrapped coordinate "
+             "is a finite float w with -1/2 <= w <= 1/2 - 2^-53, rounding of all three additions and both remainders included "
+             "(the model's remainder is proved to be an exact fractional part: C15_ffmod1_range).  The binary64 wrap is also "
+             "exercised bit-for-bit on the edge set (x,y = +-1/2, +-(1/2 - 2^-54), denormals, -0.0).",
+        note=GEOM_NOTE + "  The binary64 theorem is about the model's wrap1 over NumF (ffmod1 = fmod(x, 1) by the 2^52 trick), which "
+             "the geometry engine compares bit for bit with Transform2::periodic on every case."),
     "C17": dict(
         engine="parse", design_ref="DESIGN.md section 4 C17",
         technique="Coq proof by induction over grammar derivations (strings of every length) + bit-exact model/impl comparison on strings",
